@@ -105,7 +105,7 @@ def run(tier):
     # (1) design: exhaustive model check of the implementation-shaped model; every case is printed
     consts = {"MaxN": 4, "PermN": 3, "MaxMerges": 3, "MaxEnemies": 2 if thorough else 1,
               "UfKeys": 4 if thorough else 3, "UfOps": 3, "Modes": '{"topo", "merge", "uf"}',
-              "Variants": 12 if thorough else 2, "ThinLo": 1 if thorough else 4, "ThinUf": 1 if thorough else 2,
+              "Variants": 8 if thorough else 1, "ThinLo": 1 if thorough else 5, "ThinUf": 1 if thorough else 4,
               "EMIT": "TRUE"}
     cfg = _write_cfg("ga_mc.cfg", consts)
     # -coverage is unusable with the deeply recursive operators of this module (TLC runs out of memory);
@@ -151,7 +151,7 @@ def run(tier):
     res.evaluations += len(cases)
 
     # (2) spec -> code: strided subset of the model's cases replayed into the real code
-    cap = 40000 if thorough else 6000
+    cap = 30000 if thorough else 3000
     by_mode = {}
     for c in cases:
         by_mode.setdefault(c["mode"], []).append(c)
@@ -183,7 +183,7 @@ def run(tier):
         res.samples.append({"kind": "replayed TLC case (SubgraphMerge)", **mid[len(mid) // 2]})
 
     # (3) code -> spec: seeded random larger cases
-    count = 6000 if thorough else 600
+    count = 5000 if thorough else 400
     rtrace = os.path.join(d, "random_trace.ndjson")
     p = vlib.run_bin(exe, ["random", count, 12 if thorough else 9, rtrace])
     if p.returncode != 0:
@@ -208,7 +208,8 @@ def run(tier):
 
     # (4) canaries: a flipped try_merge verdict and a reversed topological order must be flagged
     can = []
-    for rec in rows:
+    model_rows = [dict(c, e="case", case=0) for c in chosen]   # the model's predicted records (known good)
+    for rec in model_rows:
         if rec.get("mode") == "merge" and rec.get("ok") and any(m["ret"] and m["u"] != m["v"] for m in rec["merges"]):
             c2 = json.loads(json.dumps(rec))
             for m in c2["merges"]:
@@ -218,7 +219,7 @@ def run(tier):
             c2["case"] = 1
             can.append(c2)
             break
-    for rec in rows:
+    for rec in model_rows:
         if rec.get("mode") == "topo" and rec.get("ok") and len(rec["edges"]) >= 1 and len(rec["res"]) >= 2 \
                 and all(a != b for a, b in rec["edges"]):
             c2 = json.loads(json.dumps(rec))
@@ -226,7 +227,7 @@ def run(tier):
             c2["case"] = 2
             can.append(c2)
             break
-    for rec in rows:
+    for rec in model_rows:
         if rec.get("mode") == "uf" and any(x["op"] == "same" for x in rec["calls"]):
             c2 = json.loads(json.dumps(rec))
             for x in c2["calls"]:
